@@ -27,7 +27,7 @@ form, so that read-then-write reproduces them byte for byte.
 `parse_p21(text)` -> (file_type, [(state_letter|None, Inst)]) : a small independent reader for the oracle side.
 `encode_inst / encode_val` produce the word encoding used on the Lean drivers' line protocol:
     value :=  N | D | T<hex> | R<int> | A<n> value*n | S<hexname> value
-    inst  :=  I <id> <nparts> ( <HEXNAME> <nvals> value* )*
+    inst  :=  [K<hex of the comment>] I <id> <nparts> ( <NAME> <nvals> value* )*
 """
 import re
 
@@ -829,11 +829,32 @@ def encode_val(v):
     raise ValueError(v)
 
 
-def encode_inst(inst):
-    w = [f"I {inst.id} {len(inst.parts)}"]
-    for n, vs in inst.parts:
+SELECT_AGG_KINDS = ("AGG_SEL", "AGG_SELE", "AGG_SELL")
+
+
+def encode_val_at(v, attr):
+    """value with the path markers the Session model wants: `Vs` = read through a SELECT (attribute or aggregate element),
+    `Vr` = read through a redeclared position; the markers are not part of the value (decode_words drops them)"""
+    if v[0] in ("null", "empty", "derived"):
+        return encode_val(v)
+    if attr.base == "SELECT":
+        w = "Vs " + encode_val(v)
+    elif attr.kind in SELECT_AGG_KINDS and v[0] == "aggr":
+        w = " ".join([f"A{len(v[1])}"] + ["Vs " + encode_val(x) for x in v[1]])
+    else:
+        w = encode_val(v)
+    return ("Vr " + w) if attr.redef_name else w
+
+
+def encode_inst(inst, schema=None):
+    """schema given: values carry the path markers (see encode_val_at)"""
+    w = ([f"K{hx(inst.comment)}"] if inst.comment else []) + [f"I {inst.id} {len(inst.parts)}"]
+    for pi, (n, vs) in enumerate(inst.parts):
         w.append(f"{n} {len(vs)}")
-        w += [encode_val(v) for v in vs]
+        if schema is None:
+            w += [encode_val(v) for v in vs]
+        else:
+            w += [encode_val_at(v, a) for v, a in zip(vs, part_attrs(schema, inst, pi))]
     return " ".join(w)
 
 
@@ -841,6 +862,8 @@ def decode_words(words):
     """inverse of encode_inst over a word list; returns (Inst, rest)"""
     def val(ws):
         w = ws[0]
+        if w in ("Vs", "Vr"):
+            return val(ws[1:])
         if w == "N":
             return ("null",), ws[1:]
         if w == "D":
@@ -859,6 +882,9 @@ def decode_words(words):
             x, rest = val(ws[1:])
             return ("typed", bytes.fromhex(w[1:]).decode("latin-1"), x), rest
         raise ValueError(w)
+    cm = None
+    if words[0].startswith("K"):
+        cm, words = bytes.fromhex(words[0][1:]).decode("latin-1"), words[1:]
     assert words[0] == "I"
     iid, np_ = int(words[1]), int(words[2])
     ws, parts = words[3:], []
@@ -869,4 +895,4 @@ def decode_words(words):
             v, ws = val(ws)
             vs.append(v)
         parts.append((nm, vs))
-    return Inst(iid, parts), ws
+    return Inst(iid, parts, cm), ws
